@@ -200,8 +200,20 @@ class Ctx:
         q = self._numq
         saved = {k: getattr(nr, k) for k in ('rand', 'random', 'uniform', 'randn', 'standard_normal', 'normal')}
         def take(fam, shape):
-            if not q[fam]: raise RuntimeError(f"contract did not name this {fam} draw")
-            v = q[fam].pop(0)
+            if not q[fam]:
+                # a draw the contract did not name (the code may draw the same law in another form): served from the seeded
+                # generator of this run and recorded among the inputs, so that a replay sees the same value
+                n = int(np.prod(shape)) if shape not in (None, ()) else 1
+                self._auto = getattr(self, '_auto', 0) + 1
+                vals = []
+                for i in range(n):
+                    nm = f'_unnamed_{fam}{self._auto}_{i}'
+                    if self.inputs is not None and nm in self.inputs: x = float(self.inputs[nm])
+                    else: x = float(self.rng.uniform(1e-9, 1 - 1e-9)) if fam == 'uniform' else float(self.rng.standard_normal())
+                    self.symnames[nm] = x; vals.append(x)
+                v = np.array(vals) if shape not in (None, ()) else vals[0]
+            else:
+                v = q[fam].pop(0)
             if shape not in (None, ()):
                 # numpy returns an array of the requested shape (also for one element): the named draw fills it
                 try:
